@@ -781,6 +781,9 @@ class AECDHKeyExchange(KeyExchange):
             ext_s = self.serverHello.getExtension(
                 ExtensionType.ec_point_formats)
             if ext_c and ext_s:
+                if ext_s.formats is None:
+                    raise TLSDecodeError("Empty ec_point_formats extension "
+                                         "in Server Hello")
                 try:
                     ext_supported = [
                         i for i in ext_c.formats if i in ext_s.formats
